@@ -79,13 +79,13 @@ type loopInfo struct {
 	headLocals map[*ssa.Alloc]string
 }
 
-type FuncGen struct {
+// Core: state shared by a function under verification and the bodies of
+// contract-less helper functions inlined into it.
+type Core struct {
 	eng   *Engine
-	fn    *ssa.Function
-	c     *Contract
 	w     *World
-	pkg   *types.Package
-	fname string // short display name
+	fname string // short display name of the function under contract
+	rootC *Contract
 
 	decls    []string
 	declared map[string]bool
@@ -93,9 +93,6 @@ type FuncGen struct {
 	obls     []*Obligation
 	counts   map[string]int
 
-	vals   map[ssa.Value]string
-	addrs  map[ssa.Value]*Addr
-	tuples map[ssa.Value][]string
 	fresh  map[string]bool // terms statically known to be freshly allocated refs
 	nonNil map[string]bool
 
@@ -106,40 +103,65 @@ type FuncGen struct {
 
 	ownMod      map[string]bool
 	modifiesAll bool
-
-	edges    map[[2]int]edgeInfo
-	loops    map[*ssa.BasicBlock]*loopInfo
-	loopList []*loopInfo
-	nameSeq  int
+	nameSeq     int
 
 	paramTerms map[string]Val
 	resTerms   []string
 
-	abstracted  []string
-	assumptions map[string]bool
+	abstracted    []string
+	inlined       map[string]bool
+	assumptions   map[string]bool
 	usedContracts map[string]bool
-	unsupported string
+	unsupported   string
 
-	reachSeq int
-	debugRef map[string][]debugDef
-	visited  map[*ssa.BasicBlock]string // range-over-map ghost visited sets by header
-	pureDecl map[string]bool
-	nextKey  map[*ssa.BasicBlock]string
-	globalsDone bool
+	reachSeq     int
+	pureDecl     map[string]bool
+	globalsDone  bool
 	mapSortCache map[string]string
-	specDefs []string
-	lemmaPres []string
-	bytesOf map[string]string
-	localAllocs map[*ssa.Alloc]bool
+	specDefs     []string
+	lemmaPres    []string
+	bytesOf      map[string]string
 	abstractions [][2]string
-	visitedMode int
-	staleInvs []string
-	mapRefKind map[string]string
+	staleInvs    []string
+	mapRefKind   map[string]string
 	ownFootprint []string
-	disabled map[int]bool // assumptions of failed side checks, dropped in the second pass
-	inline map[ssa.Value]bool
-	posts    map[string]*postParts
-	postOrder []string
+	disabled     map[int]bool // assumptions of failed side checks, dropped in the second pass
+	posts        map[string]*postParts
+	postOrder    []string
+	inlineSeq    int
+}
+
+type retInfo struct {
+	reach   string
+	heap    *Heap
+	results []string
+}
+
+type FuncGen struct {
+	*Core
+	fn  *ssa.Function
+	c   *Contract // contract of this frame (nil for inlined helper bodies)
+	pkg *types.Package
+
+	vals   map[ssa.Value]string
+	addrs  map[ssa.Value]*Addr
+	tuples map[ssa.Value][]string
+
+	edges    map[[2]int]edgeInfo
+	loops    map[*ssa.BasicBlock]*loopInfo
+	loopList []*loopInfo
+
+	debugRef    map[string][]debugDef
+	visited     map[*ssa.BasicBlock]string // range-over-map ghost visited sets by header
+	nextKey     map[*ssa.BasicBlock]string
+	localAllocs map[*ssa.Alloc]bool
+	visitedMode int
+	inline      map[ssa.Value]bool
+
+	// inlined frame
+	prefix  string
+	depth   int
+	returns []retInfo
 }
 
 type debugDef struct {
@@ -273,7 +295,7 @@ func (g *FuncGen) allocTerm(h *Heap) string { return g.heapGet(h, "$alloc", "Int
 // ---------- values ----------
 
 func (g *FuncGen) valName(v ssa.Value) string {
-	return "v:" + v.Name()
+	return "v:" + g.prefix + v.Name()
 }
 
 func (g *FuncGen) val(v ssa.Value) string {
@@ -297,7 +319,7 @@ func (g *FuncGen) val(v ssa.Value) string {
 		t = g.declare("FN:"+x.String(), "Int")
 		g.assert(fmt.Sprintf("(> %s 0)", t))
 	case *ssa.Parameter, *ssa.FreeVar:
-		t = g.declareDeep("p:"+v.Name(), v.Type())
+		t = g.declareDeep("p:"+g.prefix+v.Name(), v.Type())
 	case *ssa.Builtin:
 		t = "0"
 	default:
@@ -895,6 +917,14 @@ func (g *FuncGen) Generate() (err error) {
 			}
 			g.assert(t)
 			pres = append(pres, t)
+		}
+		for _, cl := range g.c.Assumes {
+			t, e := g.evalBool(cl.Expr, env)
+			if e != nil {
+				return fmt.Errorf("%s: assume %s: %v", g.fname, cl.Src, e)
+			}
+			g.assert(t)
+			g.assumptions["assumed fact ["+cl.Label+"] in "+g.fname+": "+cl.Src] = true
 		}
 		// vacuity: the precondition must be satisfiable
 		o := g.oblige("cover.pre", "", "true", "true", "precondition satisfiable", token.NoPos)
